@@ -500,7 +500,7 @@ def call_short(c):
     return '::'.join(parts[-2:]) if len(parts) >= 2 else c
 
 
-def enum_paths(f, start, stop_call=None, limit=200000):
+def enum_paths(f, start, stop_call=None, limit=200000, sql=False):
     """All paths from block `start` to a `return` (or to a call matching `stop_call`), loops unrolled twice, unwind edges
     not followed. A path is a tuple of facts: ('call', short name), ('branch', short name of the call whose result is
     switched on, value), ('stmt', 'pending') for the coroutine's suspension assignment, ('ok',) / ('err',) for aggregate
@@ -527,6 +527,10 @@ def enum_paths(f, start, stop_call=None, limit=200000):
             m = re.match(r'^_\d+ = ((?:RetryError|TowerStatus|RetrierStatus)::\w+)', s_)
             if m:
                 tr = tr + (('mk', m.group(1)),)
+            if sql:
+                m = re.match(r'^_\d+ = const "\s*(INSERT[^"]*)"', s_)
+                if m:
+                    tr = tr + (('sql',) + sql_insert_policy(m.group(1)),)
         t = b.term
         k = t['kind']
         if k == 'call':
@@ -562,6 +566,157 @@ def _exists(rows, pred, label):
     if v == 'sat':
         i = int(re.search(r'\(i (\d+)\)', out).group(1))
     return v, i, dt, out
+
+
+def sql_insert_policy(text):
+    """('table', 'abort' | 'ignore' | 'replace' | 'upsert') of an INSERT statement: what sqlite does when the row's primary key
+    is already present (https://sqlite.org/lang_conflict.html: the default is ABORT = the statement fails)."""
+    m = re.match(r'INSERT(?:\s+OR\s+(\w+))?\s+INTO\s+(\w+)', text)
+    if not m:
+        return ('?', 'abort')
+    pol = (m.group(1) or 'abort').lower()
+    if pol not in ('ignore', 'replace'):
+        pol = 'abort'
+    if re.search(r'ON\s+CONFLICT\s*\(.*?\)\s*DO\s+(UPDATE|NOTHING)', text, re.S):
+        pol = 'upsert'
+    return (m.group(2), pol)
+
+
+def _store_summary(funcs, name, depth=0):
+    """Per path of a client-DBM store function: the list of (table, policy) of the INSERTs whose failure makes the function
+    return Err on that path, in order, and the list of inserts that succeeded before ("ok"), as facts for the SMT query:
+    [(fail_table_or_None, [tables that must not have failed])]."""
+    n = [x for x in funcs if re.match(r'^dbm::<impl at .*?>::%s$' % name, x)]
+    if len(n) != 1:
+        return None
+    f = funcs[n[0]]
+    rows = enum_paths(f, min(f.blocks), sql=True)
+    if rows is None:
+        return None
+    out = []
+    for r in rows:
+        pend, ok, fail, ignore_next = None, [], None, False
+        ev = list(r)
+        for k, e in enumerate(ev):
+            if e[0] == 'sql':
+                pend = (e[1], e[2])
+            elif e[0] == 'call' and e[1].endswith('::execute') and pend:
+                # how is the Result consumed?  `?` = branch (+ from_residual on the Err path), `.ok()` = ignored, unwrap = panic
+                nxt = [x[1] for x in ev[k + 1:k + 3] if x[0] == 'call']
+                if nxt and nxt[0].endswith('::branch'):
+                    if len(nxt) > 1 and nxt[1].endswith('::from_residual'):
+                        fail = pend
+                    else:
+                        ok.append(pend)
+                elif nxt and nxt[0].endswith('::unwrap'):
+                    ok.append(pend)
+                    out.append((('panic',) + pend, list(ok[:-1])))
+                pend = None
+            elif e[0] == 'call' and e[1].startswith('DBM::store_') and depth == 0:
+                nxt = [x[1] for x in ev[k + 1:k + 3] if x[0] == 'call']
+                sub = _store_summary(funcs, e[1].split('::')[-1], 1)
+                if sub is None:
+                    return None
+                if nxt and nxt[0].endswith('::branch'):
+                    for sf, sok in sub:
+                        if sf and len(nxt) > 1 and nxt[1].endswith('::from_residual'):
+                            fail = sf
+                        elif not sf:
+                            ok.extend(sok)
+                # `.ok()`: the nested insert may fail or not, nothing follows from it
+        out.append((fail, ok))
+    return out
+
+
+def q_insert_conflict(o, tier):
+    """C05.M5 / C14.M3: one step of each WTClient recorder from an arbitrary pre-state that satisfies the representation
+    invariant (the in-memory mirror of a table has a key iff the table has the row): no path reaches `unwrap()` on the Err of
+    a client-DBM store call. A store call returns Err when one of its INSERTs whose result is propagated with `?` hits an
+    existing primary key under sqlite's default conflict policy (ABORT); INSERT OR REPLACE / OR IGNORE / ON CONFLICT never
+    fail that way. The pre-state booleans (row present per table, key present in the mirror) are the symbolic variables:
+    this is what a repeated notification, a retry racing a notification or two replies in flight can produce."""
+    funcs, idx, t_mir, err = load_mir('watchtower-plugin', 'lib')
+    if funcs is None:
+        return {'verdict': 'inconclusive', 'reason': 'MIR dump failed'}
+    # recorder -> (store function, mirrored table, call whose result is the mirror test, value of the test when the key is present)
+    conf = {
+        'add_pending_appointment': ('store_pending_appointment', 'pending_appointments', 'HashSet::insert', False),
+        'add_invalid_appointment': ('store_invalid_appointment', 'invalid_appointments', 'HashSet::insert', False),
+        'add_appointment_receipt': ('store_appointment_receipt', None, None, None),
+        'flag_misbehaving_tower': ('store_misbehaving_proof', 'misbehaving_proofs', 'TowerStatus::is_misbehaving', True),
+    }
+    want = o.get('recorders') or list(conf)
+    failed, queries, solver_s, wit = [], 0, 0.0, {}
+    for rec in want:
+        store, mirror, test, test_when_present = conf[rec]
+        n = [x for x in funcs if re.match(r'^wt_client::<impl at .*?>::%s$' % rec, x)]
+        summ = _store_summary(funcs, store)
+        if len(n) != 1 or not summ:
+            return {'verdict': 'inconclusive', 'reason': 'WTClient::%s or DBM::%s not found / not readable' % (rec, store)}
+        f = funcs[n[0]]
+        rows = enum_paths(f, min(f.blocks))
+        if rows is None:
+            return {'verdict': 'inconclusive', 'reason': 'path explosion'}
+        tables = sorted({t for sf, sok in summ for t in ([sf[-2]] if sf else []) + [x[0] for x in sok]})
+        if not tables:
+            return {'verdict': 'inconclusive', 'reason': 'no INSERT found in DBM::%s' % store}
+        # paths of the recorder on which the store result is unwrapped
+        cases = []
+        for r in rows:
+            ev = list(r)
+            for k, e in enumerate(ev):
+                if e == ('call', 'DBM::%s' % store):
+                    nxt = [x[1] for x in ev[k + 1:k + 2] if x[0] == 'call']
+                    unwrapped = bool(nxt) and (nxt[0].endswith('::unwrap') or nxt[0].endswith('::expect'))
+                    guard = [x for x in ev[:k] if x[0] == 'branch' and x[1] == test]
+                    cases.append((r, unwrapped, guard))
+        if not cases:
+            return {'verdict': 'inconclusive', 'reason': 'WTClient::%s does not call DBM::%s' % (rec, store)}
+        text = '(set-logic ALL)\n(declare-const mirror Bool)\n'
+        for t in tables:
+            text += '(declare-const row_%s Bool)\n' % t
+        if mirror and mirror in tables:
+            text += '(assert (= mirror row_%s))\n' % mirror      # representation invariant
+        text += '(declare-const c Int)\n(declare-const s Int)\n'
+        disj = []
+        for ci, (r, unwrapped, guard) in enumerate(cases):
+            if not unwrapped:
+                continue
+            g = []
+            for (_, _, v) in guard:
+                taken_true = v != '0'
+                # test result == test_when_present  <=>  mirror
+                g.append('mirror' if taken_true == test_when_present else '(not mirror)')
+            for si, (sf, sok) in enumerate(summ):
+                if not sf:
+                    continue
+                pol = sf[-1]
+                tb = sf[-2]
+                conds = list(g) + ['(= c %d)' % ci, '(= s %d)' % si]
+                conds.append('row_%s' % tb if pol == 'abort' else 'false')
+                for (t2, p2) in sok:
+                    if p2 == 'abort':
+                        conds.append('(not row_%s)' % t2)
+                disj.append('(and %s)' % ' '.join(conds))
+        text += '(assert (or false %s))\n(check-sat)\n(get-model)\n' % ' '.join(disj)
+        v, out, dt = smt(text)
+        queries += 1
+        solver_s += dt
+        wit[rec] = {'store': store, 'inserts': sorted({'%s:%s' % (x[-2], x[-1]) for x, _ in summ if x} | {'%s:%s' % y for _, sok in summ for y in sok}),
+                    'guarded_by': test if any(gd for _, _, gd in cases) else None, 'unwrapped': any(u for _, u, _ in cases)}
+        if v == 'inconclusive':
+            return {'verdict': 'inconclusive', 'reason': out[:200]}
+        if v == 'sat':
+            ci = int(re.search(r'define-fun c \(\) Int\s+(\d+)', out).group(1))
+            si = int(re.search(r'define-fun s \(\) Int\s+(\d+)', out).group(1))
+            pre = {m_.group(1): m_.group(2) for m_ in re.finditer(r'define-fun (mirror|row_\w+) \(\) Bool\s+(true|false)', out)}
+            failed.append({'description': 'WTClient::%s can unwrap() a primary-key conflict of DBM::%s (table %s) when the record is already there: panic with the client state locked'
+                                          % (rec, store, summ[si][0][-2]),
+                           'function': 'WTClient::%s' % rec, 'pre_state': pre,
+                           'schedule': [list(e) for e in cases[ci][0] if e[0] != 'stmt']})
+    return {'verdict': 'fails' if failed else 'holds', 'failed': failed, 'queries': queries, 'solver_s': solver_s,
+            'witness': wit, 'functions': ['watchtower_plugin::wt_client::WTClient::{%s}' % ','.join(want),
+                                          'watchtower_plugin::dbm::DBM::store_*']}
 
 
 RECORDERS = ('WTClient::add_appointment_receipt', 'WTClient::add_pending_appointment', 'WTClient::add_invalid_appointment',
@@ -1272,6 +1427,7 @@ QUERIES = {
     'uuid_derivation': q_uuid_derivation,
     'plugin_startup_retry': q_plugin_startup_retry,
     'responder_block_order': q_responder_block_order,
+    'insert_conflict': q_insert_conflict,
 }
 
 
